@@ -468,6 +468,18 @@ func exceptTypes(item string) []string {
 //	x.f / x.f.g          one field of the object x evaluates to (x a parameter)
 //	pkg.Type.f           field f of every pkg.Type
 //	elems(x)             elements of slice x ; map(x) contents of map x
+// havocGhost forgets a ghost variable; an event counter (Log ghost, see isLogGhostKey) does not go down.
+func (e *Engine) havocGhost(st *State, name string) {
+	k := "G:" + name
+	if g := e.db.Ghosts[name]; g != nil && isLogGhostKey(k) && ghostSort(g.Type) == SInt {
+		before := st.heapGet(k, SInt)
+		st.havocKey(k)
+		st.assume(Ge(st.heapGet(k, SInt), before))
+		return
+	}
+	st.havocKey(k)
+}
+
 func (e *Engine) havocItem(st *State, env *SpecEnv, item string) {
 	item = strings.TrimSpace(item)
 	switch {
@@ -545,13 +557,13 @@ func (e *Engine) havocItem(st *State, env *SpecEnv, item string) {
 	case item == "ghosts" || strings.HasPrefix(item, "ghosts except "):
 		// every declared ghost variable (model-internal G:$... ghosts are left alone), minus those excepted
 		for _, name := range e.ghostNames(item) {
-			st.havocKey("G:" + name)
+			e.havocGhost(st, name)
 		}
 		return
 	}
 	if g, ok := e.db.Ghosts[item]; ok {
 		_ = g
-		st.havocKey("G:" + item)
+		e.havocGhost(st, item)
 		return
 	}
 	ex, err := parseExpr(item)
